@@ -841,6 +841,9 @@ class Interp:
                 for _ in range(abs(y) - 1):
                     r = self.ops.mul(r, a, "f")
                 return r if y > 0 else self.ops.div(Fraction(1), r, "f")
+            if is_sym(b) and _is_ite(b) and _ite_count(b) <= 4:  # e.g. (-1) ** where(flag, 1, 0)
+                k = self._k(eqn)
+                return self.ops.ite(b.arg(0), f(a, b.arg(1)), f(a, b.arg(2)), k)
             return uf("pow", _R, _R, _R)(zreal(a), zreal(b))
 
         return [ew(f, *ins)]
@@ -882,7 +885,21 @@ class Interp:
         name = "bit_" + eqn.primitive.name
         n = len(ins)
         f = uf(name, *([_I] * n), _I)
-        return [ew(lambda *xs: f(*[zint(x) for x in xs]), *ins)]
+        dt = eqn.invars[0].aval.dtype
+
+        def elem(*xs):
+            xs = [lower(x) for x in xs]
+            if all(not is_sym(x) for x in xs):
+                r = eqn.primitive.bind(*[jnp.asarray(int(x), dt) for x in xs], **eqn.params)
+                return int(r)
+            for i, x in enumerate(xs):  # distribute over an if-then-else of constants (e.g. parity of where(flag, 1, 0))
+                if is_sym(x) and self.ops._const_ite(x):
+                    a = elem(*(xs[:i] + [x.arg(1)] + xs[i + 1:]))
+                    b = elem(*(xs[:i] + [x.arg(2)] + xs[i + 1:]))
+                    return self.ops.ite(x.arg(0), a, b, "i")
+            return f(*[zint(x) for x in xs])
+
+        return [ew(elem, *ins)]
 
     p_shift_right_logical = bitwise
     p_shift_left = bitwise
